@@ -259,7 +259,7 @@ DIAG = re.compile(r"^(?P<file>[^\s:]+\.java):(?P<line>\d+): error: (?P<msg>.*)$"
 def diag_class(msg):
     """stable classifier of a javac message: identifiers and numbers removed"""
     m = msg.strip()
-    m = re.sub(r"\b[vpm]\d+\b", "", m)
+    m = re.sub(r"\b[vpm]\d+(_\d+)?\b", "", m)
     m = re.sub(r"\bC\d+\b", "", m)
     m = re.sub(r"\(.*?\)", "", m)
     m = re.sub(r"\d+", "", m)
@@ -539,11 +539,11 @@ def subject_mechanism(m, symptom, src, failing_subjects=()):
 STRUCT_GROUPS = [
     (r"nest:do-while/(while-top|while-bottom|do-while)", "loop-nested-in-do-while-misstructured"),
     (r"ret-in:(packed|sparse)-switch/if(-else)?", "switch-case-with-if-return-loses-break"),
-    (r"switch:(packed|sparse):(empty-cases-empty-default|two-empty-cases(-no-default)?)@(top|nested)", "switch-empty-cases-printed-twice-duplicate-case-label"),
+    (r"switch:(packed|sparse):(empty-cases-empty-default|two-empty-cases(-no-default)?|multi-label-empty-case(-no-default)?)@(top|nested)", "switch-empty-cases-printed-twice-duplicate-case-label"),
     (r"switch:(packed|sparse):fallthrough(-into-return)?@nested", "switch-fallthrough-wrong-follow-when-nested"),
     (r"switch:(packed|sparse):if-return-falls-into-next-case@(top|nested)", "switch-case-label-lost-after-if-return-fallthrough"),
     (r"decl:dead-stmt-uses-local", "declaration-left-in-one-branch-after-dead-use-removed"),
-    (r"decl:def-only-in-do-while-body", "declaration-inside-do-while-body-but-used-after-loop"),
+    (r"decl:def-in-do-while-body", "declaration-inside-do-while-body-but-used-after-loop"),
     (r"throw:div-or-rem", "div-by-zero-exception-lost-division-moved-into-branch"),
     (r"type:int-to-(byte|char|short):mixed-defs", "int-variable-declared-with-narrow-cast-type"),
 ]
